@@ -395,6 +395,33 @@ Proof.
   - cbn [orb] in Hl. apply name_tok_ok; [exact Hl|exact (follow_not_name _ _ Hf)].
 Qed.
 
+(* text that ends in a numeric lookup *)
+Lemma strip_digits_app r k : forallb digit_rune r = true -> strip_digits (r ++ 46 :: k) = 46 :: k.
+Proof.
+  induction r as [|c r IH]; intros H; [reflexivity|].
+  cbn [forallb] in H. apply andb_prop in H. destruct H as [Hc Hr]. cbn [app strip_digits]. rewrite Hc. exact (IH Hr).
+Qed.
+
+Lemma ends_numeric_dot_digits x l : is_digits l = true -> ends_numeric (x ++ 46 :: l) = true.
+Proof.
+  intros H. unfold ends_numeric. rewrite rev_app_distr. cbn [rev]. rewrite <- app_assoc. cbn [app].
+  unfold is_digits in H. destruct l as [|c0 l0]; [discriminate|].
+  assert (Hr : forallb digit_rune (rev (c0 :: l0)) = true).
+  { rewrite forallb_forall in *. intros y Hy. apply in_rev in Hy. exact (H y Hy). }
+  destruct (rev (c0 :: l0)) as [|c r'] eqn:E.
+  { apply (f_equal (@length _)) in E. rewrite rev_length in E. discriminate. }
+  cbn [forallb] in Hr. apply andb_prop in Hr. destruct Hr as [Hc Hr'].
+  cbn [app]. rewrite Hc, (strip_digits_app r' _ Hr'). reflexivity.
+Qed.
+
+Lemma print_dot_ends_numeric c l' : is_digits l' = true -> ends_numeric (print lower printable (EDot c l')) = true.
+Proof.
+  intros H. cbn [print]. unfold dot_sep. destruct (is_digits l' && ends_numeric (print lower printable c)).
+  - change (print lower printable c ++ [32; 46] ++ l') with (print lower printable c ++ [32] ++ 46 :: l').
+    rewrite app_assoc. apply ends_numeric_dot_digits. exact H.
+  - apply ends_numeric_dot_digits. exact H.
+Qed.
+
 (* the parameters of a call, followed by ")" *)
 Lemma params_ok : forall ps X,
   Forall (fun e => forall k, shape_ok e = true -> names_ok lower e = true -> texts_ok e = true ->
@@ -434,22 +461,24 @@ Proof.
     cbn [ExRender.pitems]. rewrite items_ok_k_app. apply andb_true_intro. split.
     + apply IHc; try assumption.
       rewrite render_app. unfold dot_items.
+      destruct (is_digits l && ends_numeric (print lower printable c)) eqn:Ed0.
+      { cbn [render render_item app]. apply base_ok. cbn; tauto. }
       destruct c as [| c' l' | | | | | | | | | |]; try discriminate Hat;
         try (cbn [render render_item T tx DOTt tokc app]; reflexivity).
-      destruct (is_digits l' && is_digits l) eqn:Ed.
-      * cbn [render render_item app]. apply base_ok. cbn; tauto.
-      * cbn [render render_item T tx DOTt tokc app]. unfold follow_ok. cbn [atomic int_dot andb].
-        change (memN 46 base_follow) with false. change (memN 46 atom_follow) with false. change (46 =? 46) with true.
-        cbn [orb andb]. rewrite !is_digits_all in Ed.
-        destruct (all_digits l') eqn:E1; [|reflexivity]. cbn [andb] in Ed. rewrite Ed in Hl. cbn [orb] in Hl.
-        unfold lookup_tok. rewrite Ed. cbn [tx tokc].
-        unfold pname_ok, name_lexeme in Hl. apply andb_prop in Hl. destruct Hl as [Hl _].
-        destruct l as [|c0 l0]; [discriminate|]. apply andb_prop in Hl. destruct Hl as [Hl _].
-        cbn [app dot_digit]. change (46 =? 46) with true. cbn [andb].
-        destruct (is_digit c0) eqn:Ec; [|reflexivity]. apply digit_not_name_start in Ec. congruence.
+      assert (Ed : is_digits l' && is_digits l = false).
+      { destruct (is_digits l') eqn:E1; [|reflexivity]. rewrite (print_dot_ends_numeric c' l' E1), andb_true_r in Ed0.
+        rewrite Ed0. reflexivity. }
+      cbn [render render_item T tx DOTt tokc app]. unfold follow_ok. cbn [atomic int_dot andb].
+      change (memN 46 base_follow) with false. change (memN 46 atom_follow) with false. change (46 =? 46) with true.
+      cbn [orb andb]. rewrite !is_digits_all in Ed.
+      destruct (all_digits l') eqn:E1; [|reflexivity]. cbn [andb] in Ed. rewrite Ed in Hl. cbn [orb] in Hl.
+      unfold lookup_tok. rewrite Ed. cbn [tx tokc].
+      unfold pname_ok, name_lexeme in Hl. apply andb_prop in Hl. destruct Hl as [Hl _].
+      destruct l as [|c0 l0]; [discriminate|]. apply andb_prop in Hl. destruct Hl as [Hl _].
+      cbn [app dot_digit]. change (46 =? 46) with true. cbn [andb].
+      destruct (is_digit c0) eqn:Ec; [|reflexivity]. apply digit_not_name_start in Ec. congruence.
     + rewrite items_ok_k_app. apply andb_true_intro. split.
-      * unfold dot_items. destruct c as [| c' l' | | | | | | | | | |]; try (unfold T; apply tok1; apply DOT_ok).
-        destruct (is_digits l' && is_digits l); [|unfold T; apply tok1; apply DOT_ok].
+      * unfold dot_items. destruct (is_digits l && ends_numeric (print lower printable c)); [|unfold T; apply tok1; apply DOT_ok].
         unfold T. apply iok_sp_ok; [reflexivity|]. apply tok1. apply DOT_ok.
       * unfold T. apply tok1. apply (lookup_ok c l k Hl Hf).
   - (* index lookup *)
